@@ -46,6 +46,9 @@ func propC06(c *Ctx, r *Report) {
 	r.Clauses = append(r.Clauses, "step at the edge (E43): the constant folder's closure for step(edge, x) answers 1.0 when its two parameters are equal")
 	c.runFoldStep(r, "fold.step", inPkgs("wgsl", "ir"))
 	r.floor("fold.step", 1)
+	r.Clauses = append(r.Clauses, "constant indexing (E43): a folder of AccessIndex that takes the index-th entry of a constructor flattened to scalars first establishes that the base is a vector")
+	c.runFoldFlatIndex(r, "fold.flatindex", "wgsl/internal/lower")
+	r.floor("fold.flatindex", 1)
 	r.Clauses = append(r.Clauses, "numeric literal conversion (E10): no strconv conversion of a WGSL numeric literal in the lowerer discards its error (a literal that is not representable must be an error, not a saturated value)")
 	c.runErrflowFiltered(r, inPkgs("wgsl/internal/lower"), nil, func(callee string) bool { return strings.HasPrefix(callee, "strconv.") }, false)
 }
